@@ -2,9 +2,9 @@
 import json,jsonschema,glob,sys
 jsonschema.validate(json.load(open('/verif/MANIFEST.json')),json.load(open('/root/.vp/MANIFEST.schema.json')))
 es=json.load(open('/root/.vp/EVIDENCE.schema.json'))
-for f in sorted(glob.glob('/verif/evidence/*.json')):
-    jsonschema.validate(json.load(open(f)),es)
 m=json.load(open('/verif/MANIFEST.json'))
+for c in m['checks']:
+    jsonschema.validate(json.load(open(c['evidence_file'])),es)
 ids={c['property_id'] for c in m['checks']}|{n['property_id'] for n in m.get('not_applicable',[])}
 allp={json.loads(l)['id'] for l in open('/verif/properties.jsonl')}
 assert ids==allp,(allp-ids,ids-allp)
